@@ -743,4 +743,243 @@ theorem prepareCore_nothingDue {par : Nat → Sess} {P : Nat → Nat → Nat →
   unfold dueC dueFuel
   omega
 
+/-! ### the retransmission budget: at most MAX_RETRANSMIT + 1 transmissions per accepted `coap_send` -/
+
+/-- transmissions a queued node of (s, mid) may still make -/
+def budC (s mid mx : Nat) : List Node → Nat
+  | [] => 0
+  | n :: r => (if n.sess = s ∧ n.mid = mid then mx - n.cnt else 0) + budC s mid mx r
+
+def bc (s mid mx : Nat) : List (Nat × PMsg) → Nat
+  | [] => 0
+  | p :: r => (if p.2.sess = s ∧ p.2.mid = mid then mx - p.2.cnt else 0) + bc s mid mx r
+
+theorem bc_absP (s mid mx : Nat) (mxf : Nat → Nat) (b : Nat) (ns : List Node) :
+    bc s mid mx (absP mxf b ns) = budC s mid mx ns := by
+  induction ns generalizing b with
+  | nil => rfl
+  | cons n r ih => simp only [absP, bc, budC, ih]; rfl
+
+theorem bc_pinsert (s mid mx : Nat) (l : List (Nat × PMsg)) (e : Nat × PMsg) :
+    bc s mid mx (pinsert l e) = (if e.2.sess = s ∧ e.2.mid = mid then mx - e.2.cnt else 0) + bc s mid mx l := by
+  induction l with
+  | nil => simp [pinsert, bc]
+  | cons x r ih =>
+    by_cases h : x.1 ≤ e.1
+    · simp only [pinsert, h, if_true, bc, ih]; omega
+    · simp only [pinsert, h, if_false, bc]
+
+theorem bc_premove_le (s mid mx : Nat) (l : List (Nat × PMsg)) (s' m' : Nat) :
+    bc s mid mx (premove l s' m').2 ≤ bc s mid mx l := by
+  induction l with
+  | nil => simp [premove, bc]
+  | cons x r ih =>
+    by_cases h : x.2.sess = s' ∧ x.2.mid = m'
+    · simp only [premove, h, and_self, if_true, bc]; omega
+    · rcases hr : premove r s' m' with ⟨res, r'⟩
+      rw [hr] at ih
+      simp only [premove, h, if_false, hr, bc]
+      simp only [] at ih
+      omega
+
+theorem budC_enqueue (s mid mx : Nat) (q : Queue) (now d : Nat) (n : Node) (h : q.nodes = [] ∨ q.base ≤ now) :
+    budC s mid mx (enqueue q now d n).nodes =
+      (if n.sess = s ∧ n.mid = mid then mx - n.cnt else 0) + budC s mid mx q.nodes := by
+  rw [← bc_absP s mid mx (fun _ => 0) (enqueue q now d n).base, absP_enqueue _ _ _ _ _ h, bc_pinsert, bc_absP]
+  rfl
+
+theorem budC_popNext (s mid mx : Nat) (l : List Node) (n : Node) (rest : List Node) (h : popNext l = some (n, rest)) :
+    budC s mid mx l = (if n.sess = s ∧ n.mid = mid then mx - n.cnt else 0) + budC s mid mx rest := by
+  rw [← bc_absP s mid mx (fun _ => 0) 0 l, absP_popNext _ _ _ _ _ h]
+  simp only [bc, bc_absP]
+  rfl
+
+theorem budC_removeNode_le (s mid mx : Nat) (l : List Node) (s' m' : Nat) :
+    budC s mid mx (removeNode l s' m').2 ≤ budC s mid mx l := by
+  have h1 := absP_removeNode (fun _ => 0) 0 l s' m'
+  have h2 := bc_premove_le s mid mx (absP (fun _ => 0) 0 l) s' m'
+  rw [← h1.1, bc_absP, bc_absP] at h2
+  exact h2
+
+/-- transmissions made + transmissions the queued and the delayed nodes of (s, mid) may still make -/
+def W (s mid mx : Nat) (l : L) : Nat :=
+  txC s mid l.out + budC s mid mx l.q.nodes + (mx + 1) * midC mid (l.getS s).delayq
+
+theorem W_setS_keep (s mid mx : Nat) (l : L) (s' : Nat) (se : Sess) (h : se.delayq = (l.getS s').delayq) :
+    W s mid mx (l.setS s' se) = W s mid mx l := by
+  have hd := delayq_setS_keep l s' s se h
+  simp only [W]; rw [hd]; rfl
+
+theorem W_emit_other (s mid mx : Nat) (l : L) (o : Out) (h2 : ∀ t s' m' k c, o ≠ .tx t s' m' k c) :
+    W s mid mx (l.emit o) = W s mid mx l := by
+  simp only [W]
+  show txC s mid (o :: l.out) + _ + _ = _
+  rw [txC_cons_other s mid o l.out h2]
+  rfl
+
+theorem drain_W {par : Nat → Sess} {P : Nat → Nat → Nat → Prop} (hp : GPar par) (s mid : Nat) :
+    ∀ (fuel : Nat) (l : L) (s' : Nat), FInv False par P l →
+      W s mid (par s).maxRtx (drain fuel l s') = W s mid (par s).maxRtx l := by
+  intro fuel
+  induction fuel with
+  | zero => intro l s' _; rfl
+  | succ f ih =>
+    intro l s' hi
+    obtain ⟨ca, dq, hg, hle, hdq⟩ := hi.sess s'
+    obtain ⟨hest, hopen, hns, h256⟩ := hp s'
+    cases dq with
+    | nil =>
+      have : drain (f + 1) l s' = l := by simp [drain, hg]
+      rw [this]
+    | cons n rest =>
+      obtain ⟨hcon, htok, hT, hT32, hcnt, h64, hP⟩ := hdq n (by simp)
+      by_cases hgate : ca ≥ (par s').nstart
+      · have : drain (f + 1) l s' = l := by simp [drain, hg, hest, hcon, hgate]
+        rw [this]
+      · rw [drain_succ hp f l s' ca n rest hg hgate (hdq n (by simp)) hi]
+        have hi2 : FInv False par P ((l.setS s' { par s' with conActive := (ca + 1) % 256, delayq := rest }).emit
+            (.tx l.now s' n.mid 0 true)) := by
+          refine ⟨hi.base, gsess_congr rfl (gsess_setS hi.sess s' _ rest ?_ (fun x hx => hdq x (by simp [hx]))),
+            hi.nodes, fun p hp' => pendOk_mono _ (hi.pend p hp'), ?_⟩
+          · have : (ca + 1) % 256 ≤ ca + 1 := Nat.mod_le _ _
+            omega
+          · exact outOk_cons_tx _ _ _ _ hi.outs (fun h => h.elim)
+        have hn' : NodeOk par P { n with sess := s' } := ⟨hcon, htok, hT, by simp [hcnt], h64, hP⟩
+        have hi3 := (finv_enq_fresh _ { n with sess := s' } hi2 (futF _) hn' hcnt (by simp [L.emit])).1
+        refine (ih _ s' hi3).trans ?_
+        have hdl : (l.getS s').delayq = n :: rest := by rw [hg]
+        have hin := delayq_in_range hdl
+        have hbq : budC s mid (par s).maxRtx (enqueue l.q l.now n.timeout { n with sess := s' }).nodes =
+            (if s' = s ∧ n.mid = mid then (par s).maxRtx else 0) + budC s mid (par s).maxRtx l.q.nodes := by
+          rw [budC_enqueue s mid (par s).maxRtx l.q l.now n.timeout { n with sess := s' } (Or.inr hi.base)]
+          show (if s' = s ∧ n.mid = mid then (par s).maxRtx - n.cnt else 0) + _ = _
+          rw [hcnt, Nat.sub_zero]
+        simp only [W]
+        show txC s mid (_ :: l.out) + budC s mid (par s).maxRtx (enqueue l.q l.now n.timeout _).nodes +
+          ((par s).maxRtx + 1) * midC mid (L.getS (l.setS s' _) s).delayq = _
+        rw [hbq]
+        by_cases hss : s' = s
+        · subst hss
+          rw [getS_setS_in _ hin, hdl]
+          by_cases hm : n.mid = mid
+          · simp only [txC, midC, hm, and_self, if_true, Nat.mul_add, Nat.mul_one]
+            omega
+          · simp only [txC, midC, hm, and_false, if_false, Nat.zero_add]
+        · rw [getS_setS_ne _ hss]
+          simp only [txC, hss, false_and, if_false, Nat.zero_add]
+
+theorem release_W {par : Nat → Sess} {P : Nat → Nat → Nat → Prop} (hp : GPar par) (s mid : Nat) (l : L) (s' : Nat)
+    (hi : FInv False par P l) : W s mid (par s).maxRtx (release l s') = W s mid (par s).maxRtx l := by
+  obtain ⟨ca, dq, hg, hle, hdq⟩ := hi.sess s'
+  have hconn : ∀ l1 : L, FInv False par P l1 →
+      W s mid (par s).maxRtx (connected l1 s') = W s mid (par s).maxRtx l1 := by
+    intro l1 hi1
+    obtain ⟨ca1, dq1, hg1, hle1, hdq1⟩ := hi1.sess s'
+    have e : ({ (l1.getS s') with est := true } : Sess) = { par s' with conActive := ca1, delayq := dq1 } := by
+      rw [hg1]
+      have := (hp s').1
+      cases hps : par s'
+      rw [hps] at this
+      simp_all
+    have hk := W_setS_keep s mid (par s).maxRtx l1 s' { (l1.getS s') with est := true } rfl
+    unfold connected
+    simp only []
+    rw [e] at hk ⊢
+    have hi2 : FInv False par P (l1.setS s' { par s' with conActive := ca1, delayq := dq1 }) :=
+      ⟨hi1.base, gsess_setS hi1.sess s' ca1 dq1 hle1 hdq1, hi1.nodes, hi1.pend, hi1.outs⟩
+    exact (drain_W hp s mid _ _ s' hi2).trans hk
+  unfold release
+  simp only []
+  split
+  · rfl
+  · have hk := W_setS_keep s mid (par s).maxRtx l s' { (l.getS s') with conActive := (l.getS s').conActive - 1 } rfl
+    have h1 : FInv False par P (l.setS s' { (l.getS s') with conActive := (l.getS s').conActive - 1 }) := by
+      rw [hg]
+      exact ⟨hi.base, gsess_setS hi.sess s' (ca - 1) dq (by omega) hdq, hi.nodes, hi.pend, hi.outs⟩
+    split
+    · exact (hconn _ h1).trans hk
+    · exact hk
+
+/-- `coap_retransmit` of a popped node spends one transmission of its budget, or gives up when none is left -/
+theorem retransmit_W {par : Nat → Sess} {P : Nat → Nat → Nat → Prop} (hp : GPar par) (s mid : Nat) (l : L) (n : Node)
+    (hi : FInv False par P l) (hn : NodeOk par P n) :
+    W s mid (par s).maxRtx (retransmit l n) =
+      W s mid (par s).maxRtx l + (if n.sess = s ∧ n.mid = mid then (par s).maxRtx - n.cnt else 0) := by
+  obtain ⟨hcon, htok, hT, hcnt, h64, hP⟩ := hn
+  obtain ⟨ca, dq, hg, hle, hdq⟩ := hi.sess n.sess
+  obtain ⟨hest, hopen, hns, h256⟩ := hp n.sess
+  by_cases hc : n.cnt < (par n.sess).maxRtx
+  · have hle2 : n.timeout * 2 ^ (n.cnt + 1) ≤ n.timeout * 2 ^ (par n.sess).maxRtx :=
+      Nat.mul_le_mul_left _ (Nat.pow_le_pow_right (by decide) hc)
+    have hroom : ca - 1 < (par n.sess).nstart := by omega
+    have hres := retransmit_resend l n (by rw [hg]; exact hc) (by rw [hg]; exact hest) (by rw [hg]; exact hroom)
+      (by omega) (by omega) (Or.inr hi.base)
+    have hsess := retransmit_resend_sess l n (by rw [hg]; exact hc) (by rw [hg]; exact hest)
+      (by rw [hg]; exact hroom) (by omega) (by omega) hcon
+    have hbq : budC s mid (par s).maxRtx
+        (enqueue l.q l.now (n.timeout * 2 ^ (n.cnt + 1)) { n with cnt := n.cnt + 1 }).nodes =
+        (if n.sess = s ∧ n.mid = mid then (par s).maxRtx - (n.cnt + 1) else 0) + budC s mid (par s).maxRtx l.q.nodes :=
+      budC_enqueue s mid (par s).maxRtx l.q l.now _ { n with cnt := n.cnt + 1 } (Or.inr hi.base)
+    have hd : ((retransmit l n).getS s).delayq = (l.getS s).delayq := by
+      have : (retransmit l n).getS s = (l.setS n.sess { (l.getS n.sess) with
+          conActive := ((l.getS n.sess).conActive - 1 + 1) % 256 }).getS s := by
+        simp only [L.getS, hsess]
+      rw [this]
+      exact delayq_setS_keep l n.sess s _ rfl
+    have ho : (retransmit l n).out = Out.tx l.now n.sess n.mid (n.cnt + 1) n.con :: l.out := hres.1
+    have hq : (retransmit l n).q.nodes =
+        (enqueue l.q l.now (n.timeout * 2 ^ (n.cnt + 1)) { n with cnt := n.cnt + 1 }).nodes := by rw [hres.2.2]
+    simp only [W, ho, hq, hd, hbq]
+    by_cases hm : n.sess = s ∧ n.mid = mid
+    · have hmx : (par s).maxRtx = (par n.sess).maxRtx := by rw [hm.1]
+      simp only [txC, hm, and_self, if_true]
+      omega
+    · simp only [txC, hm, if_false]
+      omega
+  · have hc' : ¬ n.cnt < (l.getS n.sess).maxRtx := by rw [hg]; exact hc
+    have heq : retransmit l n = (release l n.sess).emit (.nack (release l n.sess).now n.sess .retries n.mid true) := by
+      unfold retransmit
+      simp [hc', hcon]
+    rw [heq, W_emit_other _ _ _ _ _ (by intros; simp), release_W hp s mid l n.sess hi]
+    by_cases hm : n.sess = s ∧ n.mid = mid
+    · have hmx : (par s).maxRtx = (par n.sess).maxRtx := by rw [hm.1]
+      simp only [hm, and_self, if_true]
+      omega
+    · simp only [hm, if_false, Nat.add_zero]
+
+theorem dueLoop_W {par : Nat → Sess} {P : Nat → Nat → Nat → Prop} (hp : GPar par) (s mid : Nat) :
+    ∀ (f : Nat) (l : L), FInv False par P l →
+      W s mid (par s).maxRtx (dueLoop f l) = W s mid (par s).maxRtx l := by
+  intro f
+  induction f with
+  | zero => intro l _; rfl
+  | succ f ih =>
+    intro l hi
+    cases hn : l.q.nodes with
+    | nil =>
+      have hnd : NothingDue l := by rw [nothingDue_iff]; intro h r hh; rw [hn] at hh; cases hh
+      rw [dueLoop_not_due _ l hnd]
+    | cons hd r =>
+      by_cases hdue : l.q.base + hd.t ≤ l.now
+      · obtain ⟨rest, hpop, _, hloop⟩ := dueLoop_due f l hd r hn hi.base hdue
+        rw [hloop]
+        have hab := absP_popNext (mxOf par) l.q.base l.q.nodes hd rest hpop
+        have hall := all_popNext (nodeOk_tfree par P) l.q.nodes hd rest hpop hi.nodes
+        have hi1 : FInv False par P { l with q := { l.q with nodes := rest } } :=
+          ⟨hi.base, hi.sess, hall.2, fun p hp' => hi.pend p (by rw [hab]; exact List.mem_cons_of_mem _ hp'), hi.outs⟩
+        have hpc := budC_popNext s mid (par s).maxRtx l.q.nodes hd rest hpop
+        have hr := retransmit_W hp s mid _ hd hi1 hall.1
+        have hi2 := (retransmit_finv hp _ hd hi1 (futF _) hall.1 (fun h => h.elim)).1
+        have e1 : W s mid (par s).maxRtx ({ l with q := { l.q with nodes := rest } } : L) +
+            (if hd.sess = s ∧ hd.mid = mid then (par s).maxRtx - hd.cnt else 0) = W s mid (par s).maxRtx l := by
+          simp only [W]
+          show txC s mid l.out + budC s mid (par s).maxRtx rest +
+            ((par s).maxRtx + 1) * midC mid (l.getS s).delayq + _ = _
+          omega
+        rw [ih _ hi2, hr]
+        exact e1
+      · have hnd : NothingDue l := by
+          rw [nothingDue_iff]; intro h r' hh; rw [hn] at hh; cases hh; omega
+        rw [dueLoop_not_due _ l hnd]
+
 end Coap.Sched
